@@ -696,6 +696,10 @@ func (ref *Node) DoNewObject(t reflect.Type, m meta.Definition, insideList bool)
 	case reflect.Interface:
 		switch x := m.(type) {
 		case *meta.List:
+			if insideList {
+				// a list item is a container keyed by leaf names whatever the list's key type
+				return reflect.ValueOf(make(map[string]interface{})), nil
+			}
 			keyMeta := x.KeyMeta()
 			if len(keyMeta) == 1 {
 				// support some common key types, but anything too unusual should have
@@ -711,7 +715,7 @@ func (ref *Node) DoNewObject(t reflect.Type, m meta.Definition, insideList bool)
 				case val.FmtDecimal64:
 					return reflect.ValueOf(make(map[float64]interface{})), nil
 				}
-			} else if len(keyMeta) > 1 && !insideList {
+			} else if len(keyMeta) > 1 {
 				// a map can only be indexed by a single key, entries that share
 				// their first key component would silently be merged
 				return reflect.ValueOf(make([]map[string]interface{}, 0)), nil
